@@ -112,10 +112,31 @@ def build_harness(race=False, tags="verif"):
     return out
 
 
+_FAST_TMP = None
+
+
+def fast_tmp():
+    """A RAM-backed scratch root for the drivers' directory trees (metadata-heavy work is ~20x faster there);
+    falls back to the default temp dir. Removed at exit."""
+    global _FAST_TMP
+    if _FAST_TMP is None:
+        _FAST_TMP = ""
+        if not os.environ.get("VERIF_TMP") and os.path.isdir("/dev/shm") and os.access("/dev/shm", os.W_OK):
+            try:
+                _FAST_TMP = tempfile.mkdtemp(prefix="verif-", dir="/dev/shm")
+                import atexit
+                atexit.register(shutil.rmtree, _FAST_TMP, True)
+            except OSError:
+                _FAST_TMP = ""
+    return _FAST_TMP
+
+
 def run_driver(binary, args, timeout=3600, env=None, stdout_path=None, check=True, cwd=None):
     """Run the Go driver. Returns CompletedProcess; raises Inconclusive on timeouts / crashes if check."""
     e = dict(os.environ)
     e["VERIF_SEED"] = str(seed())
+    if fast_tmp():
+        e["TMPDIR"] = fast_tmp()
     if env:
         e.update(env)
     so = open(stdout_path, "w") if stdout_path else subprocess.PIPE
@@ -279,7 +300,13 @@ def run_tlc(module, cfg, files=None, data=None, workers=None, timeout=900, heap=
             res.rc = -1
         res.wall = time.time() - t0
         parse_tlc(res.out, res)
-        res.prints = [l for l in res.out.splitlines() if l.startswith("<<\"")]
+        res.prints = collect_prints(res.out)
+        for tag in ("VIOL", "DRIFT", "OTHER"):
+            want = len(re.findall(r'^<<\s*"%s",' % tag, res.out, flags=re.M))
+            got = sum(1 for p in res.prints if p.startswith('<<"%s",' % tag))
+            if want != got:
+                res.ok = False
+                res.error = "internal: %d %s reports in the TLC output but %d parsed" % (want, tag, got)
         if res.timed_out:
             res.ok = False
             res.error = "timeout after %ss" % timeout
@@ -293,6 +320,30 @@ def run_tlc(module, cfg, files=None, data=None, workers=None, timeout=900, heap=
     finally:
         if not keep:
             shutil.rmtree(d, ignore_errors=True)
+
+
+def collect_prints(out):
+    """PrintT output `<<"TAG", ...>>`; TLC wraps and pads long values over several lines - rejoin and
+    normalise them to the compact single-line form."""
+    prints = []
+    cur = None
+    for line in out.splitlines():
+        if cur is None:
+            if re.match(r'^<<\s*"', line):
+                cur = line
+            else:
+                continue
+        else:
+            cur += " " + line.strip()
+        if cur.count("<<") <= cur.count(">>") and cur.count("{") <= cur.count("}") and cur.count("[") <= cur.count("]"):
+            c = re.sub(r"\s+", " ", cur)
+            c = re.sub(r"(<<|\{|\[) ", r"\1", c)
+            c = re.sub(r" (>>|\}|\])", r"\1", c)
+            prints.append(c)
+            cur = None
+        elif len(cur) > 4000000:
+            cur = None
+    return prints
 
 
 def require_clean(res, what):
